@@ -823,6 +823,25 @@ func (w *World) typeIndexByInterp(fn *ssa.Function) (map[string]int64, int, bool
 		idx[name] = got
 		vals[got] = true
 	}
+	// an operand of any other Go type (round() yields an int): the function
+	// complains (panics) — or whatever it answers is one more value of the index,
+	// which the table then has to have a row and a column for
+	for _, t := range []types.Type{types.Typ[types.Int], types.NewSlice(types.Typ[types.String])} {
+		ai := w.newInterp(AHooks{})
+		for _, o := range ai.Exec(fn, []AVal{{Kind: avUnknown, Dyn: t, Tag: "operand"}}, nil, w.initState()) {
+			if o.Cut {
+				return nil, 0, false
+			}
+			if o.Panicked {
+				continue
+			}
+			k, ok := o.Ret.Int()
+			if !ok {
+				return nil, 0, false
+			}
+			vals[k] = true
+		}
+	}
 	return idx, len(vals), true
 }
 
